@@ -8,6 +8,9 @@ Targets
       JSSPEnv.load_data                                                                            sub `sched_files`
   (d) copy.deepcopy / pickle of every environment class in vf.envs.SPECS (RL4COEnvBase.__getstate__)  sub `env_copy`
   (e) Lightning checkpoints of REINFORCE (+baselines), POMO, A2C, PPO                            sub `checkpoint`
+  (f) RL4COEnvBase(data_dir=, train_file=, val_file=, test_file=, *_dataloader_names=, dataset_cls=) followed by
+      env.dataset(n, phase) / env.dataset(n, phase, filename=) for every env spec: npz files, lists of files,
+      FJSP/JSSP directories of text instances and single JSSP text files                         sub `env_files`
 
 Oracles: bit equality of tensors (dtype, shape, bytes; NaN == NaN) against the object that was written, the
 documented normalisation recomputed independently in numpy float32, an independent reader/writer of the two text
@@ -44,12 +47,25 @@ RULE = (
     "independent writer under shuffled file names, read by the file generators (whole / chunked), env.load_data "
     "(explicit and default batch size) or an env built with generator_params=file_path. env_copy: every env spec, "
     "deepcopy / pickle, global RNG advanced before and after the dump, env optionally used for an episode first. "
+    "env_files: every env spec of vf.envs (sizes <= 20; FJSP/JSSP drawn 5x as often) built through its real "
+    "constructor with data_dir (with/without trailing slash) and, per phase train/val/test, no file | one file | a "
+    "list of two files (val/test, default or custom *_dataloader_names) | for JSSP one .txt file; every file holds "
+    "1-4 freshly drawn instances of its own (npz written by save_tensordict_to_npz, CVRP/SDVRP in the "
+    "generate_vrp_data layout with one capacity per row; scheduling instances written by the independent text "
+    "writer), names plain / in a sub-directory / (text directories) with a trailing slash or a dotted name; read "
+    "back by env.dataset(n, phase=...) or env.dataset(n, phase, filename=<path>) (the constructor then names no "
+    "file or another existing file for that phase) with n omitted, below, equal to or above the file size, as int "
+    "or [n]; dataset_cls default or FastTdDataset. Oracle: the dataset holds exactly the instances of the named "
+    "file(s) - npz: all rows in file order whatever n; text: min(n, #files) distinct instances of the directory - "
+    "never generator output or another phase's file; phases without a file give n generated instances; one phase's "
+    "stream-driven episode (masks, dones, reward) equals the episode on the in-memory original. "
     "checkpoint (enumerated, not searched): every pair of {REINFORCE(no/rollout/exponential/mean/critic), POMO, A2C, "
     "PPO} x {tsp, cvrp} 3 times (thorough: 20 times) with a 1-layer AttentionModelPolicy (embed 16/32), 5-8 nodes, "
     "1 epoch (thorough: 1-2) on 8-16 instances, remaining parameters from a RandomState seeded by the run seed. "
     "Non-trivial = npz td with >=2 "
     "dtypes or a non-contiguous entry; dataset size not in {1,2,4,8,10} ; scheduling directory with >=2 instances "
-    "of different operation counts; env whose RNG was advanced before the dump; checkpoint whose trained policy "
+    "of different operation counts; env whose RNG was advanced before the dump; env_files case with >=2 phases read from files and at least one "
+    "call whose n differs from the file size; checkpoint whose trained policy "
     "differs from its initialisation (and, for rollout, whose baseline policy differs from the trained policy). "
     "Distinct = distinct case hash."
 )
@@ -62,6 +78,18 @@ ASSUMPTIONS = [
     "start/end operation ids are compared by value (the file readers return float32 ids); directory order is the "
     "order of FileGenerator.files (os.listdir order, unsorted) — rows are matched to files by name, env.load_data "
     "results as a multiset",
+    "env_files: file names handed to the constructor carry their suffix (.npz is NOT appended by RL4COEnvBase on the "
+    "unchanged tree - check_extension is only used by generate_dataset - and the shipped configs/env/*.yaml spell it "
+    "out; scheduling configs name extension-less directories, e.g. test_file: 10j_10m); names are relative to "
+    "data_dir (os.path.join), absolute names are not exercised; a single text file is only given to JSSPEnv "
+    "(JSSPFileGenerator tests os.path.isfile, FJSPFileGenerator always lists a directory); lists of files only for "
+    "val/test (train_file is joined as one name); dataset(filename=) takes one full path, not joined with data_dir "
+    "(tasks/eval.py); counts: load_npz_to_tensordict ignores batch_size, so an npz phase returns the whole file "
+    "for every n, the text-file generators return min(n, number of files) with a warning (both observed on the "
+    "unchanged tree and stated in the loaders); dataset_cls is not passed to FFSPEnv, which fixes FastTdDataset "
+    "itself; the spec builders of vf.envs are reused by temporarily binding rl4co.envs.<Class> to "
+    "functools.partial(<Class>, data_dir=..., ...): the real constructor runs with the spec's arguments plus the "
+    "file arguments",
     "CVRP normalisation = demand / capacity[:, None] in float32; MTVRP scale = demand_{linehaul,backhaul} / "
     "capacity_original in float32 (vehicle_capacity is left as stored)",
     "MDPP: the real PDN data files cannot be downloaded here; the env is built on synthetic diagonally dominant "
@@ -992,12 +1020,280 @@ def exec_ckpt(case, ctx):
     ctx.sample({k: case[k] for k in ("algo", "env", "n", "emb", "train", "val", "epochs")})
 
 
+# =========================================================================== (f) dataset files handed to the env
+PHASES = ("train", "val", "test")
+TEXT_ENVS = ("fjsp", "jssp")  # val/test "files" are directories of text instances (JSSP also: one text file)
+CVRP_FILES = ("cvrp", "sdvrp")  # CVRPEnv.load_data documents demand / capacity (inherited by SDVRPEnv)
+FILE_ENV_POOL = [e for e in ALL_ENVS if e not in TEXT_ENVS] + list(TEXT_ENVS) * 5
+N_KINDS = ["more", "less", "equal", "more", "wrapped_less", "wrapped_more", "default"]
+
+
+def _small_cfg(cfg):
+    return not isinstance(cfg.get("n"), int) or cfg["n"] <= 20
+
+
+@st.composite
+def envfile_cases(draw, tier="quick"):
+    name = draw(st.sampled_from(FILE_ENV_POOL))
+    cfg = draw(SPECS[name].cfg(tier).filter(_small_cfg))
+    text = name in TEXT_ENVS
+    if text and draw(st.booleans()):  # different operation counts between the instances of a directory
+        cfg = dict(cfg, jobs=max(cfg["jobs"], 2), max_ops=max(cfg["max_ops"], cfg["min_ops"] + 1))
+        if "one2one" in cfg:
+            cfg["one2one"] = False
+    case = {"env": name, "cfg": cfg, "seed": draw(st.integers(0, 2 ** 31 - 1)), "dir_slash": draw(st.booleans()),
+            "dataset_cls": draw(st.sampled_from(["TensorDictDataset", "TensorDictDataset", "FastTdDataset"]))}
+    phases = {}
+    for ph in PHASES:
+        kinds = ["file", "file", "file", "none"] + (["list"] if ph != "train" else []) + (["txt", "txt"] if name == "jssp" else [])
+        kind = draw(st.sampled_from(kinds))
+        p = {"kind": kind, "n": draw(st.sampled_from(N_KINDS)), "n_gen": draw(st.integers(1, 4))}
+        if kind != "none":
+            p["sizes"] = [1] if kind == "txt" else [draw(st.integers(1, 4)) for _ in range(2 if kind == "list" else 1)]
+            p["style"] = draw(st.sampled_from(["plain", "plain", "subdir"] + (["slash", "dotted"] if text and kind != "txt" else [])))
+            p["via"] = "ctor" if kind == "list" else draw(st.sampled_from(["ctor", "ctor", "filename"]))
+            p["decoy"] = p["via"] == "filename" and draw(st.booleans())
+            p["custom_names"] = kind == "list" and draw(st.booleans())
+        phases[ph] = p
+    if all(p["kind"] == "none" for p in phases.values()):
+        phases["test"].update(kind="file", sizes=[draw(st.integers(1, 4))], style="plain", via="ctor", decoy=False,
+                              custom_names=False)
+    case["phases"] = phases
+    case["episode_phase"] = draw(st.sampled_from([ph for ph in PHASES if phases[ph]["kind"] != "none"]))
+    case["rows"] = draw(st.lists(row_strategy(), min_size=1, max_size=4))
+    return case
+
+
+@contextlib.contextmanager
+def ctor_kwargs(clsname, **kw):
+    """While active, `rl4co.envs.<clsname>(...)` (as the spec builders of vf.envs call it) receives the additional
+    keyword arguments `kw`: the real constructor with the spec's own arguments plus data_dir / *_file / ..."""
+    import functools
+
+    import rl4co.envs as E
+
+    real = getattr(E, clsname)
+    setattr(E, clsname, functools.partial(real, **kw))
+    try:
+        yield real
+    finally:
+        setattr(E, clsname, real)
+
+
+def dataset_call(ctx, env, name, args, kw):
+    """env.dataset(*args, **kw); a crash inside rl4co is a violation `crash|env.dataset|<env>|<Type>|<frame>`.  Returns
+    None only when that crash is a listed known finding (the caller then skips this phase, not the whole case)."""
+    import sys
+
+    from ..runner import SkipCase, Violation, repo_frame
+
+    try:
+        return env.dataset(*args, **kw)
+    except (Violation, SkipCase):
+        raise
+    except Exception as e:  # noqa
+        fr = repo_frame(sys.exc_info()[2])
+        if fr is None:
+            raise
+        ctx.violation(f"crash|env.dataset|{name}|{type(e).__name__}|{fr}",
+                      f"env.dataset{tuple(args)} {kw}: {type(e).__name__}: {str(e)[:300]}", detail={"frame": fr})
+        return None
+
+
+def dataset_rows(ds):
+    """All items of a dataset object, collated the way the data loader does."""
+    idx = list(range(len(ds)))
+    if hasattr(ds, "__getitems__"):
+        return ds.collate_fn(ds.__getitems__(idx))
+    return ds.collate_fn([ds[i] for i in idx])
+
+
+def exec_envfiles(case, ctx):
+    import rl4co.data.dataset as D
+    from rl4co.data.utils import save_tensordict_to_npz
+
+    name, cfg, phases = case["env"], case["cfg"], case["phases"]
+    spec = SPECS[name]
+    text = name in TEXT_ENVS
+    env0 = spec.env(cfg)  # the in-memory original side
+    clsname = type(env0).__name__
+    ctx.event(f"envfile|{name}")
+
+    with scratch() as d:
+        data_dir = os.path.join(d, "data")
+        os.makedirs(data_dir)
+        counter = [0]
+
+        def new_file(ph, size, style, kind):
+            """Write one dataset file (npz / directory of text instances / single text file) with fresh instances.
+            Returns its record, or None if the generator crashed (C18)."""
+            i = counter[0]
+            counter[0] += 1
+            try:
+                inst = spec.gen(cfg, size, (case["seed"] + 7919 * i) % (2 ** 31))
+            except Exception:  # noqa
+                return None
+            rel = f"{ph}_{i}" if style != "subdir" else os.path.join("nested", f"{ph}_{i}")
+            if style == "dotted":
+                rel += ".v1"
+            rec = {"size": size, "inst": inst}
+            if text:
+                rec["canon"] = [canon(inst[b]) for b in range(size)]
+                dd = os.path.join(data_dir, rel)
+                os.makedirs(dd)
+                for b in range(size):
+                    with open(os.path.join(dd, f"i{i}_{b:02d}.txt"), "w") as fh:
+                        fh.write((fjsp_text if name == "fjsp" else jssp_text)(rec["canon"][b], cfg["mas"]))
+                rec["name"] = os.path.join(rel, f"i{i}_00.txt") if kind == "txt" else (rel + "/" if style == "slash" else rel)
+            else:
+                arrays = {k: v.clone() for k, v in inst.items()}
+                exp = dict(arrays)
+                if name in CVRP_FILES:  # documented file format of generate_vrp_data: one capacity per instance
+                    arrays["capacity"] = arrays["capacity"].reshape(size)
+                    exp = dict(arrays)
+                    exp["demand"] = torch.from_numpy(
+                        (arrays["demand"].numpy() / arrays["capacity"].numpy()[:, None]).astype(np.float32))
+                rec["exp"] = exp
+                rec["name"] = rel + ".npz"
+                fn = os.path.join(data_dir, rec["name"])
+                os.makedirs(os.path.dirname(fn), exist_ok=True)
+                save_tensordict_to_npz(TensorDict(arrays, batch_size=[size]), fn)
+            rec["path"] = os.path.join(data_dir, rec["name"])
+            return rec
+
+        # ---- write the files and assemble the constructor arguments
+        kw = {"data_dir": data_dir + ("/" if case["dir_slash"] else "")}
+        if case["dataset_cls"] != "TensorDictDataset" and name != "ffsp":  # FFSPEnv fixes its dataset class itself
+            kw["dataset_cls"] = getattr(D, case["dataset_cls"])
+        ctx.event(f"envfile|dataset_cls|{kw['dataset_cls'].__name__ if 'dataset_cls' in kw else 'default'}")
+        plan = {}
+        for ph in PHASES:
+            p = phases[ph]
+            if p["kind"] == "none":
+                continue
+            recs = [new_file(ph, s, p["style"], p["kind"]) for s in p["sizes"]]
+            decoy = new_file(ph, 1, "plain", "file") if p["decoy"] else None
+            if any(r is None for r in recs) or (p["decoy"] and decoy is None):
+                ctx.exclude("instance_generation_crashed(C18)")
+                return
+            plan[ph] = recs
+            if p["kind"] == "list":
+                kw[f"{ph}_file"] = [r["name"] for r in recs]
+                if p["custom_names"]:
+                    kw[f"{ph}_dataloader_names"] = [f"{ph}-set-{j}" for j in range(len(recs))]
+                    ctx.event("envfile|custom_dataloader_names")
+            elif p["via"] == "ctor":
+                kw[f"{ph}_file"] = recs[0]["name"]
+            elif decoy is not None:
+                kw[f"{ph}_file"] = decoy["name"]  # another existing file: dataset(filename=...) must override it
+                ctx.event("envfile|filename_overrides_another_file")
+            ctx.event(f"envfile|{ph}|{p['kind']}|{p['via']}|{p['style']}")
+
+        with ctor_kwargs(clsname, **kw) as real:
+            env = ctx.guard(spec.build, cfg, what=f"env_with_files|{name}")
+        if type(env) is not real:
+            from ..runner import HarnessError
+            raise HarnessError(f"spec {name} did not build a {clsname}")
+
+        # ---- read every phase back
+        loaded_for_episode = None
+        varied_n = 0
+        for ph in PHASES:
+            p = phases[ph]
+            if p["kind"] == "none":
+                n = p["n_gen"]
+                ds = dataset_call(ctx, env, name, (n,), {"phase": ph})
+                if ds is not None:
+                    ctx.check(len(ds) == n, f"envfile|{name}|generated_count",
+                              f"dataset({n}, phase={ph!r}) without a {ph}_file holds {len(ds)} generated instances")
+                ctx.event(f"envfile|{ph}|none")
+                continue
+            recs = plan[ph]
+            size0 = recs[0]["size"]
+            nk = p["n"]
+            n = {"default": None, "equal": size0, "less": max(1, size0 - 1), "wrapped_less": max(1, size0 - 1)}.get(
+                nk, size0 + 2)
+            args = () if n is None else (([n],) if nk.startswith("wrapped") else (n,))
+            dkw = {"phase": ph}
+            if p["via"] == "filename":
+                dkw["filename"] = recs[0]["path"]
+            ctx.event(f"envfile|n|{nk}")
+            out = dataset_call(ctx, env, name, args, dkw)
+            if out is None:
+                continue
+            if p["kind"] == "list":
+                names = kw.get(f"{ph}_dataloader_names") or [str(j) for j in range(len(recs))]
+                ctx.check(isinstance(out, dict) and list(out.keys()) == names, f"envfile|{name}|dataloader_names",
+                          f"dataset(phase={ph!r}) for {len(recs)} files returned "
+                          f"{list(out.keys()) if isinstance(out, dict) else type(out).__name__}, expected the names {names}")
+                dsets = [out[k] for k in names]
+            else:
+                ctx.check(isinstance(out, kw.get("dataset_cls", torch.utils.data.Dataset)), f"envfile|{name}|dataset_type",
+                          f"dataset(phase={ph!r}) returned a {type(out).__name__}")
+                dsets = [out]
+            for j, (ds, rec) in enumerate(zip(dsets, recs)):
+                size = rec["size"]
+                want_n = size if (n is None or not text) else min(n, size)
+                if n is not None and n != size:
+                    varied_n += 1
+                how = f"{p['kind']}|{p['via']}"
+                what = (f"env.dataset({', '.join(map(str, args))}{', ' if args else ''}phase={ph!r}"
+                        f"{', filename=...' if 'filename' in dkw else ''}) with {ph}_file={kw.get(ph + '_file')!r}")
+                ctx.check(len(ds) == want_n, f"envfile|{name}|count|{how}",
+                          f"{what}: {len(ds)} instances, the file holds {size} (expected {want_n})")
+                rows = dataset_rows(ds)
+                if text:
+                    pool = {}
+                    for b, c in enumerate(rec["canon"]):
+                        pool.setdefault(canon_key(c), []).append(b)
+                    order = []
+                    for i2 in range(want_n):
+                        c = canon(rows[i2])
+                        cand = pool.get(canon_key(c))
+                        if not cand or not c["pad_ok"]:
+                            ctx.violation(f"envfile|{name}|not_the_file|{how}",
+                                          f"{what}: instance {i2} is none of the (remaining) instances of the files on "
+                                          f"disk (freshly generated or taken from another file?)",
+                                          {"read": c, "on_disk": rec["canon"]})
+                            return
+                        order.append(cand.pop())
+                    got = rows
+                    mem = rec["inst"][torch.tensor(order, dtype=torch.long)]
+                else:
+                    diff = td_diff(rec["exp"], rows)
+                    ctx.check(diff is None, f"envfile|{name}|not_the_file|{how}",
+                              f"{what}: the instances differ from the file on disk up to the documented normalisation "
+                              f"(freshly generated or taken from another file?): {diff}")
+                    got = rows
+                    mem = TensorDict({k: v.clone() for k, v in rec["exp"].items()}, batch_size=[size])
+                if ph == case["episode_phase"] and j == 0:
+                    loaded_for_episode = (mem, got)
+
+        # ---- same episode on the loaded and on the in-memory instance
+        if loaded_for_episode is not None:
+            mem, got = loaded_for_episode
+            B = mem.batch_size[0]
+            modes, streams = rows_of(case, B)
+            if text:
+                cap = 2 * max(canon(mem[b])["nops"] for b in range(B)) + 4
+            else:
+                cap = max(spec.bound(cfg, py_instance(name, mem[b])) for b in range(B)) + 3
+            compare_episodes(ctx, f"envfile|{name}", env0, mem, env, got, modes, streams, cap)
+    n_file_phases = sum(1 for ph in PHASES if phases[ph]["kind"] != "none")
+    if n_file_phases >= 2 and varied_n >= 1:
+        ctx.nontriv()
+    ctx.sample({"env": name, "cfg": cfg, "phases": {ph: {k: v for k, v in phases[ph].items() if k != "n_gen"}
+                                                     for ph in PHASES}})
+
+
 SUBS = [
     Sub("npz", exec_npz, strategy=lambda tier: npz_cases(tier), budget={"quick": 320, "thorough": 5000}, shards=16),
     Sub("datasets", exec_datasets, strategy=lambda tier: ds_cases(tier), budget={"quick": 160, "thorough": 2500},
         shards=16, weight=2.0),
     Sub("sched_files", exec_sched, strategy=lambda tier: sched_cases(tier), budget={"quick": 160, "thorough": 2500},
         shards=16, weight=3.0),
+    Sub("env_files", exec_envfiles, strategy=lambda tier: envfile_cases(tier), budget={"quick": 256, "thorough": 4000},
+        shards=16, weight=2.0),
     Sub("env_copy", exec_copy, strategy=lambda tier: copy_cases(tier), budget={"quick": 160, "thorough": 2500},
         shards=16, weight=2.0),
     Sub("checkpoint", exec_ckpt, enumerate=ckpt_enum, budget={"quick": 48, "thorough": 320}, shards=16, shrink=False,
